@@ -15,6 +15,7 @@ import (
 	"regexp"
 	"strconv"
 	"strings"
+	"sync"
 	"time"
 )
 
@@ -64,7 +65,10 @@ var (
 )
 
 // newWorkDir creates /verif/.work/<tag>.<pid>.<n>/ with a copy of every spec file.
-var workSeq int
+var (
+	workSeq int
+	workMu  sync.Mutex
+)
 
 func verifRoot() string {
 	if r := os.Getenv("VERIF_ROOT"); r != "" {
@@ -81,8 +85,11 @@ func verifRoot() string {
 }
 
 func newWorkDir(tag string) string {
+	workMu.Lock()
 	workSeq++
-	d := filepath.Join(verifRoot(), ".work", fmt.Sprintf("%s.%d.%d", tag, os.Getpid(), workSeq))
+	seq := workSeq
+	workMu.Unlock()
+	d := filepath.Join(verifRoot(), ".work", fmt.Sprintf("%s.%d.%d", strings.ReplaceAll(tag, "/", "_"), os.Getpid(), seq))
 	must(os.MkdirAll(d, 0o755))
 	specs, _ := filepath.Glob(filepath.Join(verifRoot(), "spec", "*"))
 	for _, s := range specs {
